@@ -26,6 +26,17 @@ pub(crate) fn stub_packet_header_size(_src: &BytesMut, _flags: u8) -> Result<Opt
     Ok(None)
 }
 
+/// stand-ins for the non-PUBLISH encoder (unreachable from `Encoded::Publish`, but CBMC does not
+/// see the enum discriminant as a constant and would expand all fifteen packet encoders)
+#[cfg(kani)]
+pub(crate) fn stub_packet_encode5(_p: &Packet, _buf: &mut BytePages, _size: u32) -> Result<(), EncodeError> {
+    panic!("unreachable: Packet encoder reached from a PUBLISH harness")
+}
+#[cfg(kani)]
+pub(crate) fn stub_packet_size5(_p: &Packet, _limit: u32) -> usize {
+    panic!("unreachable: Packet size reached from a PUBLISH harness")
+}
+
 const MAX_RL: u32 = 268_435_455;
 
 fn any_fixed5(publish: bool) -> FixedHeader {
@@ -460,6 +471,8 @@ macro_rules! rt5_publish_group {
     ($name:ident, |$p:ident| $cfg:block, $pl:expr, $cov:expr) => {
         vharness! {
             #[kani::stub(super::super::decode::decode_packet, stub_decode_packet5)]
+            #[kani::stub(<Packet as EncodeLtd>::encode, stub_packet_encode5)]
+            #[kani::stub(<Packet as EncodeLtd>::encoded_size, stub_packet_size5)]
             fn $name() unwind(9) {
                 let payload = vh::any_bin::<$pl>();
                 let mut $p = Pub5 {
@@ -494,17 +507,23 @@ macro_rules! rt5_publish_group {
                 assert!(spec_check_publish_props(&mut rd, &$p.properties));
                 assert!(rd.expect_raw(&payload));
                 assert!(rd.at_end() && !rd.bad);
-                let mut src = BytesMut::from(out.clone());
-                let d = Codec::new().decode(&mut src);
-                assert!(src.len() == 0, "decode consumes exactly the frame");
-                match d {
-                    Ok(Some(Decoded::Publish(p2, pl2, size))) => {
-                        assert!(p2 == $p);
-                        assert!(pl2 == payload);
-                        assert!(size == rl);
-                    }
-                    _ => assert!(false),
+                // decode with the two functions the decoder's PublishHeader / PublishProperties arms call
+                // (the arms themselves - state transitions, lengths, payload hand-over - are decided
+                // from arbitrary states by fr5_step_pubhdr / fr5_step_pubprops; driving the whole
+                // `Codec::decode` loop from here costs 13 min of symbolic execution: rt5_publish_whole)
+                let hl0 = 1 + vh::spec_varint_len(rl);
+                let mut src = BytesMut::from(out.slice(hl0..out.len()));
+                let hl = match Pub5::packet_header_size(&src, first) {
+                    Ok(Some(n)) => n,
+                    _ => { assert!(false, "header size not recognised"); 0 }
+                };
+                assert!(hl as usize + payload.len() == rl as usize, "header length + payload != Remaining Length");
+                let mut hdr = src.split_to(hl as usize);
+                match Pub5::decode(&mut hdr, first, rl - hl) {
+                    Ok(p2) => assert!(p2 == $p),
+                    Err(_) => assert!(false, "own PUBLISH not decodable"),
                 }
+                assert!(src.freeze() == payload, "payload bytes differ");
                 vcover!($cov, "group fields all present");
             }
         }
@@ -1089,5 +1108,130 @@ vharness! {
         let r = codec.encodev(Encoded::Packet(Packet::PublishAck(pkt.clone())), &mut pages);
         // "whenever there are two user properties the frame is at least 19 bytes" - false once the limit drops them
         assert!(!(r.is_ok() && pkt.properties.len() == 2 && pages.len() < 19));
+    }
+}
+
+fn any_publish5_bare() -> Pub5 {
+    let qos = vh::any_qos();
+    Pub5 {
+        dup: vk::any_bool(),
+        retain: vk::any_bool(),
+        qos,
+        packet_id: if qos == QoS::AtMostOnce { None } else { NonZeroU16::new(vk::any_u16()) },
+        topic: vh::any_str::<1>(),
+        payload_size: vk::any_u32(),
+        properties: PublishProperties::default(),
+    }
+}
+
+vharness! {
+    //@ props: C01 C09
+    //@ tier: quick
+    //@ functions: v5::Codec::encodev (Publish arm, streaming form), EncodeLtd for Publish (encoded_size, encode), utils::write_variable_length
+    //@ bounds: payload_size: u32 FULL WIDTH symbolic (payload not materialised: Encoded::Publish(pkt, None)); topic 0..=1 byte; qos/id/dup/retain symbolic; no properties; no peer limit
+    //@ unwindset: utf8_is_valid=3 expect_lp=3 extend_from_slice=6 clone=3 varint=5
+    //@ assumes: topic well-formed UTF-8; packet legal (QoS0 <=> no id); total within the MQTT maximum (complement: rt5_publish_rl_over)
+    //@ desc: v5 PUBLISH Remaining Length arithmetic across the 1/2/3/4-byte boundaries for every declared payload size: RL == 2+topic+(2)+1+payload_size, encoded per spec, header bytes follow
+    //@ stubs: yes
+    #[kani::stub(<Packet as EncodeLtd>::encode, stub_packet_encode5)]
+    #[kani::stub(<Packet as EncodeLtd>::encoded_size, stub_packet_size5)]
+    fn rt5_publish_rl() unwind(6) {
+        let p = any_publish5_bare();
+        vk::assume((p.qos == QoS::AtMostOnce) == p.packet_id.is_none());
+        let hdr = 2 + p.topic.len() as u64 + if p.packet_id.is_some() { 2 } else { 0 } + 1;
+        let total = hdr + p.payload_size as u64;
+        vk::assume(total <= 268_435_455);
+        let codec = Codec::new();
+        let mut pages = BytePages::default();
+        let r = codec.encodev(Encoded::Publish(p.clone(), None), &mut pages);
+        assert!(r.is_ok());
+        let out = pages.freeze();
+        let mut rd = Rd::new(&out);
+        let _ = rd.u8();
+        let rl = rd.varint();
+        assert!(!rd.bad);
+        assert!(rl as u64 == total);
+        assert!(rd.pos == 1 + vh::spec_varint_len(rl));
+        assert!(rd.left() as u64 == hdr);
+        vcover!(rl == 127, "RL 127");
+        vcover!(rl == 128, "RL 128");
+        vcover!(rl == 16_383, "RL 16383");
+        vcover!(rl == 16_384, "RL 16384");
+        vcover!(rl == 2_097_151, "RL 2097151");
+        vcover!(rl == 2_097_152, "RL 2097152");
+        vcover!(rl == 268_435_455, "RL 268435455");
+    }
+}
+
+vharness! {
+    //@ props: C01 C09
+    //@ tier: quick
+    //@ functions: v5::Codec::encodev (Publish arm), EncodeLtd for Publish
+    //@ bounds: declared payload sizes for which 2+topic+id+1+payload_size exceeds 268435455 (the complement of rt5_publish_rl), incl. sums that do not fit u32; peer limit absent or any u32
+    //@ unwindset: utf8_is_valid=3 extend_from_slice=6 clone=3
+    //@ assumes: topic well-formed UTF-8; packet legal
+    //@ desc: a v5 PUBLISH whose Remaining Length would exceed the MQTT maximum (incl. sizes whose sum overflows u32) is refused with OverMaxPacketSize, nothing is appended, and nothing panics
+    //@ stubs: yes
+    #[kani::stub(<Packet as EncodeLtd>::encode, stub_packet_encode5)]
+    #[kani::stub(<Packet as EncodeLtd>::encoded_size, stub_packet_size5)]
+    fn rt5_publish_rl_over() unwind(6) {
+        let p = any_publish5_bare();
+        vk::assume((p.qos == QoS::AtMostOnce) == p.packet_id.is_none());
+        let hdr = 2 + p.topic.len() as u64 + if p.packet_id.is_some() { 2 } else { 0 } + 1;
+        vk::assume(hdr + p.payload_size as u64 > 268_435_455);
+        let codec = Codec::new();
+        if vk::any_bool() {
+            codec.set_max_outbound_size(vk::any_u32());
+        }
+        let mut pages = BytePages::default();
+        let r = codec.encodev(Encoded::Publish(p.clone(), None), &mut pages);
+        assert!(matches!(r, Err(EncodeError::OverMaxPacketSize)));
+        assert!(pages.len() == 0, "a failed encode appends no bytes");
+        vcover!(p.payload_size == u32::MAX, "largest declared size");
+    }
+}
+
+vharness! {
+    //@ props: C01
+    //@ tier: thorough
+    //@ stubs: yes
+    //@ functions: v5::Codec::encodev (Publish arm) and v5::Codec::decode driven from FrameHeader through PublishHeader / PublishProperties (public path, whole loop)
+    //@ bounds: dup/retain/qos/packet-id symbolic, topic 0..=1 byte, payload 0..=2 bytes delivered with the header; no properties
+    //@ unwindset: utf8_is_valid=3 slice_eq=4 decode_variable_length_cursor=6 parse_publish_properties=3 clone=3 extend_from_slice=6 Decoder>::decode=4
+    //@ assumes: topic well-formed UTF-8; non-PUBLISH body decoders stubbed (unreachable here)
+    //@ mem: 16  timeout: 1500
+    //@ desc: v5 PUBLISH through the PUBLIC decoder: the frame produced by encodev is consumed exactly and yields the same packet, payload and size
+    #[kani::stub(super::super::decode::decode_packet, stub_decode_packet5)]
+    #[kani::stub(<Packet as EncodeLtd>::encode, stub_packet_encode5)]
+    #[kani::stub(<Packet as EncodeLtd>::encoded_size, stub_packet_size5)]
+    fn rt5_publish_whole() unwind(9) {
+        let payload = vh::any_bin::<2>();
+        let qos = vh::any_qos();
+        let p = Pub5 {
+            dup: vk::any_bool(),
+            retain: vk::any_bool(),
+            qos,
+            packet_id: if qos == QoS::AtMostOnce { None } else { NonZeroU16::new(vk::any_u16()) },
+            topic: vh::any_str::<1>(),
+            payload_size: payload.len() as u32,
+            properties: PublishProperties::default(),
+        };
+        vk::assume((p.qos == QoS::AtMostOnce) == p.packet_id.is_none());
+        let codec = Codec::new();
+        let mut pages = BytePages::default();
+        assert!(codec.encodev(Encoded::Publish(p.clone(), Some(payload.clone())), &mut pages).is_ok());
+        let out = pages.freeze();
+        let rl = out.len() as u32 - 2;
+        let mut src = BytesMut::from(out);
+        let d = Codec::new().decode(&mut src);
+        assert!(src.len() == 0, "decode consumes exactly the frame");
+        match d {
+            Ok(Some(Decoded::Publish(p2, pl2, size))) => {
+                assert!(p2 == p);
+                assert!(pl2 == payload);
+                assert!(size == rl);
+            }
+            _ => assert!(false),
+        }
     }
 }
